@@ -2,7 +2,7 @@
 
 R1  TLC checks spec/Door.tla: the *intended* keying disciplines (Legacy = {}) satisfy
     ReturnFresh / NoStickyFailure / HitIsFirstTime on every slice of the universe; the 0.23.0
-    disciplines ("repr_dedup", "id_unvalidated") and four further wrong designs are run as spec
+    disciplines ("repr_dedup", "id_unvalidated", "registry_wiped") and four further wrong designs are run as spec
     mutants and must be rejected (non-vacuity).  The counter-examples of the faithful model are the
     first replay targets.
 R2  every edge of the dumped state graphs of the *faithful* model (a superset of the intended
@@ -228,19 +228,20 @@ def _category(ex):
 
 
 class _World:
-    def __init__(self, theme, container, probe_names, spy=True):
+    def __init__(self, theme, container, probe_names, spy=True, name="c14world"):
         import types
         import warnings
         warnings.simplefilter("ignore")
         self.theme, self.container, self.probe_names = theme, container, probe_names
-        name = "c14world"
         self.mod = types.ModuleType(name)
         sys.modules[name] = self.mod
         self.g = self.mod.__dict__
         self.spy = None
         exec(compile(PRELUDE, "<c14 prelude>", "exec", dont_inherit=True), self.g)
-        if spy:
+        if spy is True:
             self.spy = _Spy()
+        elif spy:
+            self.spy = spy
         self.gen = {"A": -1, "B": -1, "U": -1, "D": -1}
         for n in ("A", "B", "D"):
             self.define(n)
@@ -388,7 +389,10 @@ class _World:
             self.define(op["n"])
             return None
         if k == "clear":
-            self.run("@beartype\nclass K9Clear: pass")          # a decorated class is redefined -> clear_caches()
+            # a decorated class is redefined -> clear_caches().  Twice: clear_caches() also forgets which OTHER decorated
+            # classes exist, so after an earlier clear the first execution may only re-register the name
+            self.run("@beartype\nclass K9Clear: pass")
+            self.run("@beartype\nclass K9Clear: pass")
             gc.collect()
             return None
         if k in ("bearable", "die"):
@@ -442,9 +446,18 @@ class _World:
         raise KeyError(k)
 
 
-def run_history(job):
+def run_batch(jobs):
+    """several histories one after the other in ONE interpreter, each in a module of its own (so their classes have
+    distinct reprs): the concatenation is itself a history of public-API operations, and every answer in it must
+    still equal the fresh interpreter's.  Used to screen; whatever deviates or needs address reuse is re-run alone."""
+    spy = _Spy()
+    return [run_history(j, spy=spy, name=f"c14world{i}") for i, j in enumerate(jobs)]
+
+
+def run_history(job, spy=None, name="c14world"):
     """job = {ops, theme, container, probes, amp}; returns [{ans, reuse}] per op."""
-    w = _World(job.get("theme", "class"), job.get("container", "list"), job["probes"], spy=job.get("spy", True))
+    w = _World(job.get("theme", "class"), job.get("container", "list"), job["probes"],
+               spy=spy if spy is not None else job.get("spy", True), name=name)
     w.junk_kind = job.get("junk", "plain")
     out = []
     ops = job["ops"]
@@ -579,7 +592,7 @@ CONSTANTS
 CHECK_DEADLOCK FALSE
 """
 PROPS = ["ReturnFresh", "NoStickyFailure", "HitIsFirstTime", "NoStaleIdHit", "NoForeignDedup", "TypeOK"]
-FAITHFUL = ["repr_dedup", "id_unvalidated"]
+FAITHFUL = ["repr_dedup", "id_unvalidated", "registry_wiped"]
 
 
 def _cfg(d, legacy, scope, maxops, invs):
@@ -776,14 +789,18 @@ def _history_class(h, k, theme, container, events):
     else:
         # a checker cached under the new hint's key by an earlier query that took the swap
         for i in range(k):
-            if h.ops[i]["op"] == op["op"] and h.ops[i].get("d") == op.get("d") and h.last[i]["swap"] and h.gen[i] == h.gen[k]:
+            # (== ignores the spelling: the checker cached for `A | None` also answers `None | A`)
+            if (h.ops[i]["op"] == op["op"] and "d" in h.ops[i] and "d" in op and DESC[h.ops[i]["d"]][:2] == DESC[op["d"]][:2]
+                    and h.last[i]["swap"] and h.gen[i] == h.gen[k]):
                 swap_step = i
     if swap_step is not None:
         d = h.ops[swap_step]["d"]
         sh = DESC[d][0]
-        new = "New" + ("A" if noun == "class" else noun)
+        new = "New" + (DESC[d][1] if noun == "class" or DESC[d][1] != "A" else noun)
         form = (SHAPE_WORD[container] % new) if sh == "list" else (f"{new} | None" if DESC[d][2] == 0 else f"None | {new}")
         what = {"class": "class", "NewType": "NewType", "Enum": "Enum (Literal member)", "validator": "validator closure (equal lambda source)"}[noun]
+        if DESC[d][1] == "D":
+            what = "@beartype-decorated class whose registration an earlier clear_caches() forgot"
         return "_hint_repr_to_hint", f"redefine same-named {what}, query {form}"
     return "unexplained", "ops: " + json.dumps([_short(o) for o in h.ops[:k + 1]])
 
@@ -807,10 +824,38 @@ class Judge:
                                  "probes": PROBE_NAMES[h.scope]}))
         return jobs
 
+    def screen(self, h, theme, container, result):
+        """first execution of a history (inside a batch): count, compare (i) with (ii), return the deviating steps."""
+        rep = self.rep
+        bad = []
+        for k, (op, last, res) in enumerate(zip(h.ops, h.last, result)):
+            if op["op"] in ("redefine", "clear", "hold", "drop"):
+                continue
+            if not last["judged"]:
+                self.stats["unjudged"] += 1
+                continue
+            fresh_real = self.oracle.get({"ops": fresh_ops(h.ops, k), "theme": theme, "container": container,
+                                          "probes": PROBE_NAMES[h.scope]})
+            fresh_spec = _ans_model(op, last["fresh"], h.gen[k], h.scope)
+            rep.count()
+            self.stats["queries"] += 1
+            self.stats["hit_queries"] += bool(last["hit"])
+            if fresh_spec != fresh_real:
+                rep.spec_drift(f"Fresh(q) of Door.tla differs from the fresh interpreter for {_short(op)} "
+                               f"(theme {theme}/{container}): spec {fresh_spec} real {fresh_real}")
+            if res["ans"] != fresh_real:
+                bad.append(k)
+            elif _ans_model(op, last["ret"], h.gen[k], h.scope) != fresh_spec:
+                # the 0.23.0 disciplines deviate here but the tree answered as a fresh interpreter does: the reuse did
+                # not happen (yet), or the tree no longer has that discipline (informational)
+                self.stats["model_deviation_not_observed"] += 1
+        return bad
+
     def judge(self, h, theme, container, amp, result, final):
-        """compare one executed history; returns the set of stale steps that were exercised."""
+        """compare one history executed alone; returns the stale steps that were exercised and whether it violated."""
         rep = self.rep
         exercised = set()
+        self.violated = False
         for k, (op, last, res) in enumerate(zip(h.ops, h.last, result)):
             if res["reuse"]:
                 self.stats["reuse_detected"] += 1
@@ -818,21 +863,14 @@ class Judge:
             if op["op"] in ("redefine", "clear", "hold", "drop"):
                 continue
             if not last["judged"]:
-                self.stats["unjudged"] += final
                 continue
             real = res["ans"]
             fresh_real = self.oracle.get({"ops": fresh_ops(h.ops, k), "theme": theme, "container": container,
                                           "probes": PROBE_NAMES[h.scope]})
             fresh_spec = _ans_model(op, last["fresh"], h.gen[k], h.scope)
             ret_spec = _ans_model(op, last["ret"], h.gen[k], h.scope)
-            if final:
-                rep.count()
-                self.stats["queries"] += 1
-                self.stats["hit_queries"] += bool(last["hit"])
-                if fresh_spec != fresh_real:
-                    rep.spec_drift(f"Fresh(q) of Door.tla differs from the fresh interpreter for {_short(op)} "
-                                   f"(theme {theme}/{container}): spec {fresh_spec} real {fresh_real}")
             if real != fresh_real:
+                self.violated = True
                 events = res["reuse"] or (res.get("earlier", []) if op["op"] in ("subhint", "theq", "leheld") else [])
                 table, hclass = _history_class(h, k, theme, container, events)
                 key = {"table": table, "history": hclass}
@@ -853,10 +891,6 @@ class Judge:
                               {"job": {**job, "ops": h.ops[:k + 1]}, "step": k, "real": real, "fresh_interpreter": fresh_real,
                                "fresh_spec": fresh_spec, "faithful_model": ret_spec, "reuse_events": res["reuse"],
                                "origin": h.origin})
-            elif final and ret_spec != fresh_spec:
-                # the 0.23.0 disciplines deviate here but the tree answered as a fresh interpreter does: the reuse did
-                # not happen in this attempt, or the tree no longer has that discipline (both fine; informational)
-                self.stats["model_deviation_not_observed"] += 1
         return exercised
 
 
@@ -972,7 +1006,10 @@ def run(rep, tier, seed):
             ("faithful idT (F4b transient)", (d, FAITHFUL, "idT", D - 1, ["ReturnFresh"], {"workers": 2}), False, ["ReturnFresh"]),
             ("faithful idC (F4b clear)", (d, FAITHFUL, "idC", D, ["ReturnFresh"], {"workers": 2}), False, ["ReturnFresh"]),
             ("faithful idC HitIsFirstTime", (d, FAITHFUL, "idC", D, ["HitIsFirstTime"], {"workers": 2}), False, ["HitIsFirstTime"]),
-            ("faithful reprD holds", (d, ["repr_dedup"], "reprD", D, PROPS, {"workers": 2}), True, None),
+            # a decorated class that is redefined clears the caches: 0.23.0 gets that history right ...
+            ("repr_dedup alone holds on reprD", (d, ["repr_dedup"], "reprD", D, PROPS, {"workers": 2}), True, None),
+            # ... unless an earlier clear_caches() made decortype.py forget the class
+            ("faithful reprD (registry wiped)", (d, FAITHFUL, "reprD", D, ["ReturnFresh"], {"workers": 2}), False, ["ReturnFresh"]),
             ("mutant clear_forgets_dedup", (d, ["repr_dedup", "clear_forgets_dedup"], "reprD", D, ["ReturnFresh"], {"workers": 2}), False, None),
             ("mutant tester_noconf", (d, ["tester_noconf"], "conf", D, ["ReturnFresh"], {"workers": 2}), False, None),
             ("mutant cache_uncacheable", (d, ["cache_uncacheable"], "fail", D, ["ReturnFresh"], {"workers": 2}), False, None),
@@ -981,7 +1018,7 @@ def run(rep, tier, seed):
         ]
         # graphs of the faithful model for the edge replay (no property: the whole graph is wanted)
         G = 3 if quick else 4
-        graph_scopes = [("repr", G), ("reprT", G + 1), ("reprD", G), ("idT", G), ("idC", G), ("fail", G), ("conf", G), ("misc", G)]
+        graph_scopes = [("repr", G), ("reprT", G + 1), ("reprD", G + 1), ("idT", G), ("idC", G), ("fail", G), ("conf", G), ("misc", G)]
         for scope, mo in graph_scopes:
             runs.append((f"graph {scope}", (d, FAITHFUL, scope, mo, ["TypeOK"],
                                             {"workers": 2, "dump_dot": os.path.join(d, f"g_{scope}")}), True, None))
@@ -1078,9 +1115,28 @@ def _replay_all(rep, pool, hists, quick, rnd):
     t0 = time.time()
     oracle.resolve(fj)
     rep.note(f"fresh-interpreter oracle: {len(oracle.cache)} distinct queries in {time.time() - t0:.0f}s")
-    pending = list(range(len(items)))
-    done_ex = {i: set() for i in pending}
+    # phase A -- screening: several histories per interpreter (a fork costs far more than a history here)
     t0 = time.time()
+    B = 8 if quick else 12
+    order = list(range(len(items)))
+    batches = [order[i:i + B] for i in range(0, len(order), B)]
+    bres = pool.map(run_batch, [[items[i][0].job(items[i][1], items[i][2], 0) for i in b] for b in batches], chunksize=1)
+    alone, batch_bad = set(), {}
+    for bi, (b, rs) in enumerate(zip(batches, bres)):
+        for i, res in zip(b, rs):
+            h, theme, cont = items[i]
+            bad = judge.screen(h, theme, cont, res)
+            if bad:
+                batch_bad[i] = (bi, bad)
+            if bad or h.needs_reuse or h.origin.startswith("TLC counter-example"):
+                alone.add(i)
+    rep.add("interpreters_batched", len(batches))
+    rep.note(f"screened {len(items)} histories in {len(batches)} interpreters in {time.time() - t0:.0f}s; "
+             f"{len(alone)} re-run alone (deviating: {len(batch_bad)})")
+    # phase B -- alone, with increasing provocation of address reuse where the model's path needs one
+    pending = sorted(alone)
+    done_ex = {i: set() for i in range(len(items))}
+    violated_alone = set()
     for attempt, (amp, junk) in enumerate(AMPS):
         if not pending:
             break
@@ -1091,9 +1147,23 @@ def _replay_all(rep, pool, hists, quick, rnd):
             h, theme, cont = items[i]
             ex = judge.judge(h, theme, cont, (amp, junk), res, final=(attempt == 0))
             done_ex[i] |= ex
+            if judge.violated:
+                violated_alone.add(i)
             if any(k not in done_ex[i] for k in h.needs_reuse):
                 nxt.append(i)
         pending = nxt
+        rep.add("interpreters_alone", len(jobs))
+    for i, (bi, bad) in sorted(batch_bad.items()):
+        if i not in violated_alone:
+            # deviates only after the other histories of its batch: still a history of public-API operations
+            h, theme, cont = items[i]
+            b = batches[bi]
+            rep.violation({"table": "unexplained (only after other histories in the same interpreter)",
+                           "history": "ops: " + json.dumps([_short(o) for o in h.ops[:bad[0] + 1]]), "theme": [theme, cont]},
+                          f"the answer of step {bad[0]} of the history below differs from a fresh interpreter only when it "
+                          f"runs after {b.index(i)} other histories in one interpreter\n" + render(h.job(theme, cont)),
+                          {"batch": [items[j][0].job(items[j][1], items[j][2], 0) for j in b[:b.index(i) + 1]],
+                           "job": h.job(theme, cont), "step": bad[0], "origin": h.origin})
     for i, (h, theme, cont) in enumerate(items):
         judge.stats["histories"] += 1
         judge.stats["stale_steps_model"] += len(h.needs_reuse)
